@@ -26,7 +26,7 @@ POOL = {
     "#CO": ("CO", True, 0, 0), "#2CO": ("CO", True, 2, 0), "#H2O": ("H2O", True, 0, 0), "#1H2O": ("H2O", True, 1, 0), "#H": ("H", True, 0, 0),
     "H2*": ("H2*", False, 0, 0), "c-C3H2": ("c-C3H2", False, 0, 0), "l-C3H": ("l-C3H", False, 0, 0), "C3H": ("C3H", False, 0, 0),
     "oH2": ("oH2", False, 0, 0), "pH2": ("pH2", False, 0, 0), "oH2D+": ("oH2D", False, 0, 1), "D": ("D", False, 0, 0), "HD": ("HD", False, 0, 0),
-    "Si++++": ("Si", False, 0, 4), "N2D+": ("N2D", False, 0, 1),
+    "Si++++": ("Si", False, 0, 4), "N2D+": ("N2D", False, 0, 1), "O*": ("O*", False, 0, 0), "C*": ("C*", False, 0, 0),
 }
 ELECTRON = {"e-": ("e", False, 0, -1), "E": ("E", False, 0, -1), "E-": ("E", False, 0, -1)}
 # the upper-case naming convention (UCLCHEM style): element list in capitals; the identifier uses the standard symbols.
